@@ -113,7 +113,16 @@ func Par(n int, f func(i int)) {
 		next int
 	)
 
-	const chunk = 64
+	// small index spaces (e.g. a dozen worker subprocesses) must still spread
+	// over all workers: the chunk shrinks with n
+	chunk := n / (workers * 8)
+	if chunk > 64 {
+		chunk = 64
+	}
+
+	if chunk < 1 {
+		chunk = 1
+	}
 
 	for w := 0; w < workers; w++ {
 		wg.Add(1)
